@@ -243,5 +243,18 @@ func genC15(repo string) (string, error) {
 		}
 		o.strList(w.coq, sites, "callers of "+w.name)
 	}
+	// the kv.Base the service safe points are written through: the model's "a write that was not committed is an error"
+	// (outcomes ErrNotApplied / ErrApplied of a Save / Remove) is this code: ONE transaction, its error and a not-succeeded
+	// answer both returned as errors - no retry whose last error could get lost
+	ekv, err := goast.Load(repo, "server/kv/etcd_kv.go")
+	if err != nil {
+		return "", err
+	}
+	kopt := goast.SkelOpt{Calls: set("NewSlowLogTxn", "Then", "Commit", "OpPut", "OpDelete", "Sleep"), Conds: true}
+	for _, fn := range []string{"Save", "Remove"} {
+		if err := o.skeletonCanon(ekv, "etcdKVBase", fn, "skel_etcdkv_"+fn, kopt); err != nil {
+			return "", err
+		}
+	}
 	return o.sb.String(), nil
 }
